@@ -72,6 +72,11 @@ func c11Server(rec *script.Rec, cfg string, limit ...int) (*harness.One, error) 
 	if len(limit) > 0 && limit[0] != 0 {
 		opts = append(opts, wire.MessageBufferSize(limit[0]))
 	}
+	if len(limit) > 1 && limit[1] != 0 {
+		opts = append(opts, wire.SessionAuthStrategy(wire.ClearTextPassword(func(ctx context.Context, db, u, pw string) (context.Context, bool, error) {
+			return ctx, pw == "good", nil
+		})))
+	}
 	switch cfg {
 	case "empty":
 		opts = append(opts, wire.TLSConfig(&tls.Config{}))
@@ -80,7 +85,11 @@ func c11Server(rec *script.Rec, cfg string, limit ...int) (*harness.One, error) 
 	case "empty-slice-with-capacity":
 		opts = append(opts, wire.TLSConfig(&tls.Config{Certificates: make([]tls.Certificate, 0, 4)}))
 	case "certs":
-		opts = append(opts, wire.TLSConfig(&tls.Config{Certificates: []tls.Certificate{c11Certificate()}}))
+		cfg := &tls.Config{Certificates: []tls.Certificate{c11Certificate()}}
+		if len(limit) > 2 {
+			cfg.ClientAuth = tls.ClientAuthType(limit[2])
+		}
+		opts = append(opts, wire.TLSConfig(cfg))
 	}
 	rec.Extra = copyHandler
 	one, err := harness.StartOne(rec.ParseFn(), opts...)
@@ -118,12 +127,27 @@ type c11Case struct {
 	Behave string
 	Hist   []c11Letter
 	Limit  int // configured message size limit (0 = harness default of 8 KiB)
+	// Auth: "" = none; "good" / "bad": cleartext password authentication, the client sends that password
+	Auth string
+	// FailedBefore: number of connections on the same server that answered 'S' with plaintext (a failed handshake)
+	// and went away, before this connection arrives
+	FailedBefore int
+	// ClientAuth: the server's tls.Config.ClientAuth (0 = NoClientCert, 1 = RequestClientCert, 2 = RequireAnyClientCert);
+	// ClientCert: the client presents a (self-signed, unverified) certificate
+	ClientAuth tls.ClientAuthType
+	ClientCert bool
 }
 
 func (c c11Case) String() string {
 	var names []string
 	for _, l := range c.Hist {
 		names = append(names, l.Name)
+	}
+	if c.ClientAuth != 0 || c.ClientCert {
+		return fmt.Sprintf("tls=%s server_client_auth=%v client_presents_certificate=%v auth=%s-password client=%s session=%v", c.Cfg, c.ClientAuth, c.ClientCert, c.Auth, c.Behave, names)
+	}
+	if c.Auth != "" || c.FailedBefore > 0 {
+		return fmt.Sprintf("tls=%s auth=%s-password earlier_failed_handshakes=%d client=%s session=%v", c.Cfg, c.Auth, c.FailedBefore, c.Behave, names)
 	}
 	if c.Limit != 0 {
 		return fmt.Sprintf("tls=%s limit=%d client=%s session=%v", c.Cfg, c.Limit, c.Behave, names)
@@ -134,15 +158,22 @@ func (c c11Case) String() string {
 // plainTranscript serves the history on a plaintext connection of an identically configured server.
 func c11Plain(c c11Case) ([]string, []string, string) {
 	rec := &script.Rec{}
-	one, err := c11Server(rec, c.Cfg, c.Limit)
+	one, err := c11Server(rec, c.Cfg, c.Limit, len(c.Auth), int(c.ClientAuth))
 	if err != nil {
 		return nil, nil, err.Error()
 	}
 	defer one.Stop()
 	var all []byte
-	out, _ := one.Step(pgproto.Startup("user", "alice"))
+	out, stp := one.Step(pgproto.Startup("user", "alice"))
 	all = append(all, out...)
+	if c.Auth != "" && stp == memnet.Parked {
+		out, stp = one.Step(pgproto.Password(c.Auth))
+		all = append(all, out...)
+	}
 	for _, l := range c.Hist {
+		if stp != memnet.Parked {
+			break
+		}
 		out, st := one.Step(l.Bytes)
 		all = append(all, out...)
 		if st != memnet.Parked {
@@ -153,16 +184,63 @@ func c11Plain(c c11Case) ([]string, []string, string) {
 	return t, cbSummary(rec.Evs), ""
 }
 
+var c11Last *harness.Server
+
+// c11Run: a connection the watchdog gave up on leaves a goroutine of the library behind (and every later wait
+// on this process would take a watchdog period): the worker retires after such a case.
 func c11Run(c c11Case) explore.Result {
+	c11Last = nil
+	res := c11RunInner(c)
+	if c11Last != nil && c11Last.AnyWedged() {
+		res.Poison = true
+		if len(res.Violations) == 0 && res.Engine == "" {
+			blocked, dump := harness.LibraryBlocked()
+			if blocked {
+				res.Fail("wedged", fmt.Sprintf("%s: a connection's goroutine is blocked inside the library although its client is waiting for it:\n%s", c, dump))
+			} else {
+				res.Engine = "watchdog expired but no blocked library goroutine found:\n" + dump
+			}
+		}
+	}
+	return res
+}
+
+func c11RunInner(c c11Case) explore.Result {
 	var res explore.Result
 	res.Key = c.String()
 	rec := &script.Rec{}
-	one, err := c11Server(rec, c.Cfg, c.Limit)
+	one, err := c11Server(rec, c.Cfg, c.Limit, len(c.Auth), int(c.ClientAuth))
 	if err != nil {
 		res.Engine = err.Error()
 		return res
 	}
-	defer one.Stop()
+	c11Last = one.Server
+	defer func() {
+		if !one.Server.AnyWedged() {
+			one.Stop() // (Close would wait for a wedged command for ever)
+		}
+	}()
+	for i := 0; i < c.FailedBefore; i++ {
+		// an earlier client: SSLRequest, then plaintext instead of a ClientHello, then it goes away
+		ec := one.Server.Connect()
+		if out, _ := ec.Step(pgproto.SSLRequest()); string(out) != "S" {
+			res.Engine = fmt.Sprintf("earlier connection %d: SSLRequest answered % x", i, out)
+			return res
+		}
+		if _, st := ec.Step(pgproto.Startup("user", "eve")); st == memnet.Wedged {
+			blocked, dump := harness.LibraryBlocked()
+			if !blocked {
+				res.Engine = "watchdog expired but no blocked library goroutine found:\n" + dump
+				return res
+			}
+			res.Fail("wedged", fmt.Sprintf("%s: earlier connection %d sent plaintext instead of a handshake; the server neither reads it nor closes, its goroutine is blocked:\n%s", c, i, dump))
+			return res
+		}
+		if _, st := ec.End(); st != memnet.Closed {
+			res.Fail("failed-handshake-not-closed", fmt.Sprintf("%s: earlier connection %d (plaintext instead of a handshake, then EOF) is %s", c, i, st))
+			return res
+		}
+	}
 	mc := one.C
 	certs := c.Cfg == "certs"
 	res.Trans = []string{fmt.Sprintf("start/%s|%s|done", c.Cfg, c.Behave)}
@@ -204,7 +282,7 @@ func c11Run(c c11Case) explore.Result {
 				// pipelined startup + query and must be served exactly as if no SSLRequest had preceded them
 				res.Outcome = "refused-pipelined"
 				ref := &script.Rec{}
-				r1, err := c11Server(ref, c.Cfg, c.Limit)
+				r1, err := c11Server(ref, c.Cfg, c.Limit, len(c.Auth), int(c.ClientAuth))
 				if err != nil {
 					res.Engine = err.Error()
 					return res
@@ -247,9 +325,16 @@ func c11Run(c c11Case) explore.Result {
 		}
 		// the same connection continues in plaintext with a fresh startup packet
 		var all []byte
-		out, _ = one.Step(pgproto.Startup("user", "alice"))
+		out, stp := one.Step(pgproto.Startup("user", "alice"))
 		all = append(all, out...)
+		if c.Auth != "" && stp == memnet.Parked {
+			out, stp = one.Step(pgproto.Password(c.Auth))
+			all = append(all, out...)
+		}
 		for _, l := range c.Hist {
+			if stp != memnet.Parked {
+				break
+			}
 			out, st := one.Step(l.Bytes)
 			all = append(all, out...)
 			if st != memnet.Parked {
@@ -285,9 +370,29 @@ func c11Run(c c11Case) explore.Result {
 		return res
 	}
 	ce := memnet.NewClientEnd(mc)
-	tc := tls.Client(ce, &tls.Config{InsecureSkipVerify: true, ServerName: "verif"})
-	if err := tc.Handshake(); err != nil {
-		res.Fail("handshake-failed", fmt.Sprintf("%s: TLS handshake failed: %v", c, err))
+	ccfg := &tls.Config{InsecureSkipVerify: true, ServerName: "verif"}
+	if c.ClientCert {
+		ccfg.Certificates = []tls.Certificate{c11Certificate()}
+	}
+	tc := tls.Client(ce, ccfg)
+	hs := make(chan error, 1)
+	go func() { hs <- tc.Handshake() }()
+	select {
+	case err := <-hs:
+		if err != nil {
+			res.Fail("handshake-failed", fmt.Sprintf("%s: TLS handshake failed: %v", c, err))
+			return res
+		}
+	case <-time.After(memnet.Watchdog):
+		// (the watchdog only counts when a stack dump shows a library goroutine blocked outside a transport read)
+		blocked, dump := harness.LibraryBlocked()
+		ce.Close()
+		if !blocked {
+			res.Engine = "TLS handshake did not complete but no blocked library goroutine was found:\n" + dump
+			return res
+		}
+		res.Poison = true
+		res.Fail("handshake-stalled", fmt.Sprintf("%s: the server answered S but never answers the ClientHello; its goroutine is blocked:\n%s", c, dump))
 		return res
 	}
 	var mu sync.Mutex
@@ -322,6 +427,9 @@ func c11Run(c c11Case) explore.Result {
 	case "cancel-after":
 		res.Outcome = "cancel-inside-tls"
 		st2 = step(pgproto.CancelRequest(1, 2))
+		if st2 == memnet.Closed {
+			<-done
+		}
 		mu.Lock()
 		got := append([]byte(nil), plain...)
 		mu.Unlock()
@@ -335,6 +443,9 @@ func c11Run(c c11Case) explore.Result {
 		noCallback("second SSLRequest inside TLS")
 	default:
 		st2 = step(pgproto.Startup("user", "alice"))
+		if c.Auth != "" && st2 == memnet.Parked {
+			st2 = step(pgproto.Password(c.Auth))
+		}
 		for _, l := range c.Hist {
 			if st2 != memnet.Parked {
 				break
@@ -345,6 +456,9 @@ func c11Run(c c11Case) explore.Result {
 		// one left armed after the upgrade makes the TLS session die later on its own
 		if rd, wd := mc.Deadlines(); st2 == memnet.Parked && (!rd.IsZero() || !wd.IsZero()) {
 			res.Fail("deadline-left-armed", fmt.Sprintf("%s: the upgraded connection is idle with a transport deadline still armed (read %v, write %v); the plaintext equivalent has none", c, rd, wd))
+		}
+		if st2 == memnet.Closed {
+			<-done // the server closed the connection: the reader sees EOF once it has decrypted everything
 		}
 		mu.Lock()
 		got, _ := harness.CanonTranscript(append([]byte(nil), plain...))
@@ -383,7 +497,7 @@ func init() {
 		ID:               "C11",
 		Level:            "exploration",
 		Technique:        "exhaustive enumeration of (server TLS configuration x client behaviour around the SSLRequest x session history) with a real crypto/tls client over a tapped in-memory transport; raw bytes judged structurally (TLS record framing), decrypted stream differentially against the plaintext equivalent",
-		Rule:             "TLS configuration {none, empty config, empty non-nil certificate slice (with / without capacity), with certificate} x client behaviour {SSLRequest then handshake, SSLRequest with startup+Query stuffed into the same segment, SSLRequest with surplus body, plaintext instead of a handshake, second SSLRequest, CancelRequest after the negotiation} x all session histories of length <= 2 over {Query ok, Query error, Parse+Bind+Execute+Sync, COPY-in, oversized, Terminate}; configured limits {1 KiB, 16 KiB, 64 KiB} x Query / Bind messages with bodies of L-1, L, L+1, 2L, 16383, 16384, 16385, 20000, 70000 bytes over TLS against the plaintext equivalent; non-trivial = cases that negotiate (refused or upgraded)",
+		Rule:             "TLS configuration {none, empty config, empty non-nil certificate slice (with / without capacity), with certificate} x client behaviour {SSLRequest then handshake, SSLRequest with startup+Query stuffed into the same segment, SSLRequest with surplus body, plaintext instead of a handshake, second SSLRequest, CancelRequest after the negotiation} x all session histories of length <= 2 over {Query ok, Query error, Parse+Bind+Execute+Sync, COPY-in, oversized, Terminate}; cleartext authentication (accepted / rejected) over the upgraded connection; servers requesting / requiring a client certificate x clients presenting an unverified one x authentication none / accepted / rejected; a session arriving after 1..40 earlier clients failed their handshakes on the same server; configured limits {1 KiB, 16 KiB, 64 KiB} x Query / Bind messages with bodies of L-1, L, L+1, 2L, 16383, 16384, 16385, 20000, 70000 bytes over TLS against the plaintext equivalent; non-trivial = cases that negotiate (refused or upgraded)",
 		Assumptions:      []string{"cryptographic strength is not judged: only record framing on the wire and the decrypted plaintext", "behaviour of a repeated SSLRequest is only required to leak nothing and to run no callback", "crypto/tls client and server goroutines run freely; the verdict depends on byte structure and transcripts only"},
 		Enumerate:        c11Enumerate,
 		Bounds:           func(tier string) map[string]any { return map[string]any{"session_depth": c11Depth(tier)} },
@@ -417,6 +531,24 @@ func c11Enumerate(tier string, emit explore.Emit) {
 			emit(explore.Case{Family: "tls", Size: 1, Desc: func() any { return c.String() }, Run: func() explore.Result { return c11Run(c) }})
 		}
 	}
+	// authentication over the upgraded connection (accepted and rejected), and sessions that arrive after
+	// earlier clients failed their handshakes
+	for _, cfg := range []string{"certs", "nil"} {
+		for _, auth := range []string{"good", "bad"} {
+			for _, hist := range [][]c11Letter{nil, {letters[0]}, {letters[0], letters[5]}} {
+				c := c11Case{Cfg: cfg, Behave: "ssl-handshake", Hist: hist, Auth: auth}
+				emit(explore.Case{Family: "tls-auth", Size: 2 + len(hist), Desc: func() any { return c.String() }, Run: func() explore.Result { return c11Run(c) }})
+			}
+		}
+	}
+	for _, c := range c11ClientCertCases() {
+		c := c
+		emit(explore.Case{Family: "tls-client-certificate", Size: 4, Desc: func() any { return c.String() }, Run: func() explore.Result { return c11Run(c) }})
+	}
+	for _, n := range []int{1, 2, 7, 8, 9, 16, 17, 40} {
+		c := c11Case{Cfg: "certs", Behave: "ssl-handshake", Hist: []c11Letter{letters[0]}, FailedBefore: n}
+		emit(explore.Case{Family: "after-failed-handshakes", Size: 3 + n, Desc: func() any { return c.String() }, Run: func() explore.Result { return c11Run(c) }})
+	}
 	limits := []int{1024, 16384, 65536}
 	if tier == "thorough" {
 		limits = []int{200, 1024, 4096, 16383, 16384, 16385, 32768, 65536, 1 << 20}
@@ -425,6 +557,29 @@ func c11Enumerate(tier string, emit explore.Emit) {
 		c := c
 		emit(explore.Case{Family: "tls-limit", Size: 3, Desc: func() any { return c.String() }, Run: func() explore.Result { return c11Run(c) }})
 	}
+}
+
+// c11ClientCertCases: whatever the server's TLS configuration asks of the client's certificate and whatever the
+// client presents, the session inside the tunnel (authentication included) is the plaintext session.
+func c11ClientCertCases() []c11Case {
+	var out []c11Case
+	ok, term := c11Letters()[0], c11Letters()[5]
+	for _, ca := range []tls.ClientAuthType{tls.NoClientCert, tls.RequestClientCert, tls.RequireAnyClientCert} {
+		for _, cert := range []bool{false, true} {
+			if ca == tls.RequireAnyClientCert && !cert {
+				continue // the handshake itself fails: nothing to compare
+			}
+			if ca == tls.NoClientCert && !cert {
+				continue // the ordinary case
+			}
+			for _, auth := range []string{"", "good", "bad"} {
+				for _, hist := range [][]c11Letter{{ok}, {ok, term}} {
+					out = append(out, c11Case{Cfg: "certs", Behave: "ssl-handshake", Hist: hist, Auth: auth, ClientAuth: ca, ClientCert: cert})
+				}
+			}
+		}
+	}
+	return out
 }
 
 // c11SizedCases: the configured message size limit applies to the upgraded connection exactly as to a plaintext
